@@ -91,7 +91,8 @@ type H1Cfg struct {
 	Interactive   bool              `json:"interactive,omitempty"`
 	Metrics       bool              `json:"metrics,omitempty"`
 	StaticLabels  [][2]string       `json:"static_labels,omitempty"`
-	Runs          int               `json:"runs,omitempty"` // consecutive runs on one metrics instance
+	Runs          int               `json:"runs,omitempty"`          // consecutive runs on one metrics instance
+	SameScenario  bool              `json:"same_scenario,omitempty"` // ... all of the same scenario name
 	Prog          ScenarioProg      `json:"prog"`
 	CancelAtNs    int64             `json:"cancel_at,omitempty"`   // after Do was called; <0 = cancel before Do
 	CancelAtStep  uint64            `json:"cancel_step,omitempty"` // scheduler step (asynchronous signal)
@@ -333,6 +334,7 @@ func (h h1) Gen(prop, tier string, r *simrt.Rng) (any, simrt.Config) {
 	case "C16":
 		c.Metrics = true
 		c.Runs = 1 + r.Intn(3)
+		c.SameScenario = r.Intn(2) == 0
 	case "C19":
 		c.Interactive = r.Intn(2) == 0
 		c.Verbose = false
@@ -457,6 +459,35 @@ func (h h1) Gen(prop, tier string, r *simrt.Rng) (any, simrt.Config) {
 				c.Prog.Iter[i].SleepNs = 70*int64(time.Millisecond) + 7
 			}
 		}
+		if r.Intn(3) == 0 {
+			// failed share exactly on (or one iteration off) the tolerated percentage, for many (rate, total) pairs
+			total := simrt.Pick(r, 20, 25, 40, 50, 100, 200)
+			var rates []int
+			for p := 1; p < 100; p++ {
+				if p*total%100 == 0 {
+					rates = append(rates, p)
+				}
+			}
+			rate := rates[r.Intn(len(rates))]
+			fail := rate*total/100 + simrt.Pick(r, 0, 0, 0, 1, -1)
+			fail = max(0, min(fail, total))
+			c.MaxFailRate, c.MaxFailures = rate, 0
+			c.Mode, c.Flags = "users", map[string]string{}
+			c.Concurrency = 1 + r.Intn(4)
+			c.MaxIterations = uint64(total)
+			c.MaxDurationNs = int64(8*time.Second) + odd(r)
+			c.WaitTimeoutNs = int64(2*time.Second) + odd(r)
+			c.CancelAtNs, c.CancelAtStep = 0, 0
+			c.Prog.SetupBehav, c.Prog.SetupCleanups = bPass, nil
+			c.Prog.Iter = nil
+			for i := 0; i < total; i++ {
+				p := IterPlan{SleepNs: 2*ms + int64(i%7)*1009}
+				if i < fail {
+					p.Behav = simrt.Pick(r, bFail, bError, bPanicErr)
+				}
+				c.Prog.Iter = append(c.Prog.Iter, p)
+			}
+		}
 	case "C17":
 		// measurement: distinct body and cleanup sleeps, forced queueing
 		c.Concurrency = simrt.Pick(r, 1, 1, 2)
@@ -511,7 +542,20 @@ func (h h1) Gen(prop, tier string, r *simrt.Rng) (any, simrt.Config) {
 	if r.Intn(8) == 0 {
 		c.StartOffsetNs = r.Int63n(int64(48 * time.Hour))
 	}
-	if c.Metrics && r.Intn(2) == 0 {
+	if c.Metrics && prop == "C16" && r.Intn(2) == 0 {
+		// generated static-label maps: names that differ only by case, share prefixes, sort differently from their
+		// values and from insertion order
+		names := []string{"env", "Env", "ENV", "team", "Team", "a", "A", "b", "_x", "x_", "zone1", "zone10", "zone2", "app", "App"}
+		used := map[string]bool{}
+		for i, n := 0, 1+r.Intn(6); i < n; i++ {
+			k := names[r.Intn(len(names))]
+			if used[k] {
+				continue
+			}
+			used[k] = true
+			c.StaticLabels = append(c.StaticLabels, [2]string{k, fmt.Sprintf("v%d-%s", r.Intn(100), k)})
+		}
+	} else if c.Metrics && r.Intn(2) == 0 {
 		c.StaticLabels = simrt.Pick(r, [][2]string{{"zeta", "1"}, {"alpha", "2"}}, [][2]string{{"b", "x"}, {"a", "y"}, {"c", "w"}},
 			[][2]string{{"k1", "v1"}}, [][2]string{{"env", "zz"}, {"team", "aa"}, {"app", "mm"}, {"dc", "bb"}})
 	}
